@@ -73,7 +73,10 @@ def make_file(rng, d, ftype, N, hkind, comp, k):
     else:
         data = rng.integers(0, 1 << 63, N, dtype=np.uint64) * np.uint64(2) + rng.integers(0, 2, N, dtype=np.uint64)
     fn = os.path.join(d, f'{ftype}_{k}.asdf')
-    write_asdf(fn, dict(header=hdr, data={ftype: data}), comp)
+    stored = data
+    if ftype == 'rvint' and k % 8 == 5:
+        stored = np.ascontiguousarray(data).reshape(-1)  # the three words of each particle stored as one flat column of 3N integers
+    write_asdf(fn, dict(header=hdr, data={ftype: stored}), comp)
     return fn, data, hdr
 
 
